@@ -71,6 +71,15 @@ fn exec(r: &QueryRouter, s: &str) -> Result<QueryResult, String> {
     }
 }
 
+/// the same statement through the async entry point (what a server uses), on the router's own runtime
+fn exec_async(r: &QueryRouter, s: &str) -> Result<QueryResult, String> {
+    match guarded(std::panic::AssertUnwindSafe(|| r.block_on(async { r.execute_parsed_async(s).await }))) {
+        Ok(Ok(x)) => x.map_err(|e| e.to_string().lines().next().unwrap_or("").to_string()),
+        Ok(Err(e)) => Err(e.to_string()),
+        Err(p) => Err(format!("PANIC:{p}")),
+    }
+}
+
 struct Intern(HashMap<String, u64>);
 impl Intern {
     fn id(&mut self, s: &str) -> u64 {
@@ -174,15 +183,18 @@ enum Stmt {
     Rollback(String),
     /// ROLLBACK TO the checkpoint NAMED like the first character of the id of the newest checkpoint
     RollbackNamedLikeNewestId,
+    /// ROLLBACK TO '<id>' of the (n mod created)-th checkpoint the script created
+    RollbackId(usize),
     List,
 }
 
 #[derive(Clone, Copy, Debug)]
-struct Opts { max: usize, auto: bool, bloom: bool }
+struct Opts { max: usize, auto: bool, bloom: bool, cache: bool, asynch: bool }
 
 fn new_router(o: Opts, with_cp: bool) -> QueryRouter {
     let store = if o.bloom { TensorStore::with_default_bloom_filter() } else { TensorStore::new() };
     let mut r = QueryRouter::with_shared_store(store);
+    if o.cache { r.init_cache(); }
     if with_cp {
         r.init_blob().unwrap();
         r.init_checkpoint_with_config(CheckpointConfig::default().with_auto_checkpoint(o.auto).with_interactive_confirm(false).with_max_checkpoints(o.max)).unwrap();
@@ -229,7 +241,7 @@ fn gen_write(r: &mut Rng, dist: &mut Dist) -> Stmt {
 }
 
 fn gen_script(r: &mut Rng, dist: &mut Dist) -> (Opts, Vec<Stmt>) {
-    let opts = Opts { max: *r.pick(&[1usize, 2, 3, 10]), auto: r.chance(1, 3), bloom: r.chance(1, 2) };
+    let opts = Opts { max: *r.pick(&[1usize, 2, 3, 10]), auto: r.chance(1, 3), bloom: r.chance(1, 2), cache: r.chance(1, 2), asynch: r.chance(1, 3) };
     let mut out = vec![];
     let mut names: Vec<String> = vec![];
     // a table early on makes relational content likely
@@ -240,13 +252,16 @@ fn gen_script(r: &mut Rng, dist: &mut Dist) -> (Opts, Vec<Stmt>) {
     for _ in 0..n {
         let k = r.below(100);
         if k < 16 {
-            let nm = format!("c{}", names.len() + 1);
+            let nm = if !names.is_empty() && r.chance(1, 4) { r.pick(&names).clone() } else { format!("c{}", names.len() + 1) };
             names.push(nm.clone());
             dist.hit("stmt.checkpoint");
             out.push(Stmt::Checkpoint(nm, r.range(1, 5)));
-        } else if k < 28 && !names.is_empty() {
+        } else if k < 24 && !names.is_empty() {
             dist.hit("stmt.rollback");
             out.push(Stmt::Rollback(r.pick(&names).clone()));
+        } else if k < 28 && !names.is_empty() {
+            dist.hit("stmt.rollback_by_id");
+            out.push(Stmt::RollbackId(r.below(64) as usize));
         } else if k < 31 {
             dist.hit("stmt.rollback_unknown");
             out.push(Stmt::Rollback("nope".into()));
@@ -264,6 +279,9 @@ fn gen_script(r: &mut Rng, dist: &mut Dist) -> (Opts, Vec<Stmt>) {
 fn run_script(o: Opts, stmts: &[Stmt], dist: &mut Dist) -> (String, String, bool) {
     let max = o.max;
     let r = new_router(o, true);
+    // the script's statements go through the async entry point when asked to; the query battery always asks
+    // through execute_parsed, with the same texts every time (so a query cache answers from memory when it may)
+    let run = |r: &QueryRouter, s: &str| if o.asynch { exec_async(r, s) } else { exec(r, s) };
     let store = r.vector().store().clone();
     let (mut keys, mut vals, mut names, mut dig) = (Intern(HashMap::new()), Intern(HashMap::new()), Intern(HashMap::new()), Intern(HashMap::new()));
     let mut kv_prev = kv_dump(&store);
@@ -272,6 +290,7 @@ fn run_script(o: Opts, stmts: &[Stmt], dist: &mut Dist) -> (String, String, bool
     // logical history of write statements defining the state the property promises
     let mut hist: Vec<String> = vec![];
     let mut hist_at: HashMap<String, Vec<String>> = HashMap::new();
+    let mut hist_by_id: HashMap<String, Vec<String>> = HashMap::new();
     let mut rolled_back = false;
     let mut steps = vec![];
     let mut human = vec![];
@@ -279,19 +298,22 @@ fn run_script(o: Opts, stmts: &[Stmt], dist: &mut Dist) -> (String, String, bool
     let mut clock = 1000u64;                       // checkpoint creation second (through the clock hook)
     let mut seen_ids: std::collections::HashSet<String> = Default::default();
     let mut newest_id = String::new();
+    let mut created_ids: Vec<String> = vec![];     // in creation order: position = the model's checkpoint id
     for s in stmts {
         let mut pre_step: Option<String> = None;  // an automatic checkpoint the statement took first
         let sop = match s {
             Stmt::Write { text, rel, id_free } => {
                 clock += 1;
                 tensor_checkpoint::verif_clock::set(Some(clock));
-                let ok_impl = exec(&r, text).is_ok();
+                let ok_impl = run(&r, text).is_ok();
                 if o.auto {
                     // did the statement take an automatic checkpoint (before doing its work)?
                     for (id, name, is_auto) in cat_full(&r) {
                         if seen_ids.insert(id.clone()) {
                             dist.hit(if is_auto { "checkpoint.auto" } else { "checkpoint.unexpected" });
-                            newest_id = id;
+                            newest_id = id.clone();
+                            created_ids.push(id.clone());
+                            hist_by_id.insert(id, hist.clone());
                             hist_at.insert(name.clone(), hist.clone());
                             human.push(format!("(auto checkpoint '{name}' @{clock})"));
                             pre_step = Some(format!("SCheckpoint {} {} true", names.id(&name), clock));
@@ -317,11 +339,14 @@ fn run_script(o: Opts, stmts: &[Stmt], dist: &mut Dist) -> (String, String, bool
                 clock += *inc;
                 let now = clock;
                 tensor_checkpoint::verif_clock::set(Some(now));
-                let res = exec(&r, &format!("CHECKPOINT '{name}'"));
+                let res = run(&r, &format!("CHECKPOINT '{name}'"));
                 let ok = res.is_ok();
+                let mut this_id = format!("<failed-{}>", created_ids.len());
                 if let Ok(QueryResult::Value(v)) = &res {
-                    if let Some(id) = v.strip_prefix("Checkpoint created: ") { newest_id = id.to_string(); seen_ids.insert(id.to_string()); }
+                    if let Some(id) = v.strip_prefix("Checkpoint created: ") { newest_id = id.to_string(); seen_ids.insert(id.to_string()); this_id = id.to_string(); }
                 }
+                created_ids.push(this_id.clone());
+                hist_by_id.insert(this_id, hist.clone());
                 hist_at.insert(name.clone(), hist.clone());
                 dist.hit("checkpoint.manual");
                 human.push(format!("CHECKPOINT '{name}' @{now} [{}]", if ok { "ok" } else { "err" }));
@@ -329,7 +354,7 @@ fn run_script(o: Opts, stmts: &[Stmt], dist: &mut Dist) -> (String, String, bool
             }
             Stmt::Rollback(_) | Stmt::RollbackNamedLikeNewestId => {
                 let name = match s { Stmt::Rollback(n) => n.clone(), _ => newest_id.chars().next().map(|c| c.to_string()).unwrap_or_else(|| "0".into()) };
-                let res = exec(&r, &format!("ROLLBACK TO '{name}'"));
+                let res = run(&r, &format!("ROLLBACK TO '{name}'"));
                 let ok = res.is_ok();
                 if ok {
                     rolled_back = true;
@@ -341,6 +366,27 @@ fn run_script(o: Opts, stmts: &[Stmt], dist: &mut Dist) -> (String, String, bool
                 }
                 human.push(format!("ROLLBACK TO '{name}' [{}]", match &res { Ok(_) => "ok".to_string(), Err(e) => e.clone() }));
                 format!("SRollback {} {}", names.id(&name), b(ok))
+            }
+            Stmt::RollbackId(nth) => {
+                if created_ids.is_empty() {
+                    human.push("CHECKPOINTS".into());
+                    "SList".to_string()
+                } else {
+                    let k = nth % created_ids.len();
+                    let id = created_ids[k].clone();
+                    let res = run(&r, &format!("ROLLBACK TO '{id}'"));
+                    let ok = res.is_ok();
+                    if ok {
+                        rolled_back = true;
+                        saw_rb_ok = true;
+                        if let Some(h) = hist_by_id.get(&id) { hist = h.clone(); }
+                        dist.hit("rollback_by_id.ok");
+                    } else {
+                        dist.hit("rollback_by_id.err");
+                    }
+                    human.push(format!("ROLLBACK TO <id of checkpoint #{k}> [{}]", match &res { Ok(_) => "ok".to_string(), Err(e) => e.replace(&id, "<id>") }));
+                    format!("SRollbackId {k} {}", b(ok))
+                }
             }
             Stmt::List => {
                 human.push("CHECKPOINTS".into());
@@ -363,7 +409,7 @@ fn run_script(o: Opts, stmts: &[Stmt], dist: &mut Dist) -> (String, String, bool
         rel_prev = rl;
     }
     tensor_checkpoint::verif_clock::set(None);
-    (format!("({}, {})", max, list(steps)), format!("max={max} auto={} bloom={} script=[{}]", o.auto, o.bloom, human.join("; ")), saw_rb_ok)
+    (format!("({}, {})", max, list(steps)), format!("max={max} auto={} bloom={} cache={} async={} script=[{}]", o.auto, o.bloom, o.cache, o.asynch, human.join("; ")), saw_rb_ok)
 }
 
 fn w(text: &str, rel: bool) -> Stmt {
@@ -380,7 +426,7 @@ fn main() {
     let mut ties = CaseWriter::new(&args.out, "ties");
 
     // ---- corpus: the reproduced findings of DESIGN section 5, retention, automatic checkpoints, short hex names
-    let plain = |max: usize| Opts { max, auto: false, bloom: false };
+    let plain = |max: usize| Opts { max, auto: false, bloom: false, cache: false, asynch: false };
     let cp = |n: &str| Stmt::Checkpoint(n.into(), 1);
     let mut corpus: Vec<(Opts, Vec<Stmt>)> = vec![
         // F-C08-restore
@@ -389,13 +435,19 @@ fn main() {
         (plain(10), vec![w("EMBED STORE 'k1' [1.0, 0.0, 0.0]", false), cp("c1"), w("EMBED STORE 'k2' [0.0, 1.0, 0.0]", false), cp("c2"), Stmt::Rollback("c1".into()), Stmt::List, Stmt::Rollback("c2".into())]),
         // graph + vector only: rollback restores them (data added later gone, deleted later back); plain and Bloom-filter store
         (plain(10), vec![w("NODE CREATE person { name: 'a' }", false), w("NODE CREATE person { name: 'b' }", false), w("EDGE CREATE 1 -> 2 : knows", false), w("EMBED STORE 'k0' [1.0, 0.0, 0.5]", false), cp("c1"), w("NODE DELETE 1", false), w("EMBED DELETE 'k0'", false), w("EMBED STORE 'k1' [0.0, 2.0, 0.5]", false), w("NODE CREATE person { name: 'c' }", false), Stmt::Rollback("c1".into()), w("EMBED STORE 'k2' [2.0, 2.0, 0.5]", false)]),
-        (Opts { max: 10, auto: false, bloom: true }, vec![w("NODE CREATE person { name: 'a' }", false), w("NODE CREATE person { name: 'b' }", false), w("EDGE CREATE 1 -> 2 : knows", false), w("EMBED STORE 'k0' [1.0, 0.0, 0.5]", false), cp("c1"), w("NODE DELETE 1", false), w("EMBED DELETE 'k0'", false), w("EMBED STORE 'k1' [0.0, 2.0, 0.5]", false), Stmt::Rollback("c1".into()), w("EMBED STORE 'k2' [2.0, 2.0, 0.5]", false)]),
+        (Opts { max: 10, auto: false, bloom: true, cache: false, asynch: false }, vec![w("NODE CREATE person { name: 'a' }", false), w("NODE CREATE person { name: 'b' }", false), w("EDGE CREATE 1 -> 2 : knows", false), w("EMBED STORE 'k0' [1.0, 0.0, 0.5]", false), cp("c1"), w("NODE DELETE 1", false), w("EMBED DELETE 'k0'", false), w("EMBED STORE 'k1' [0.0, 2.0, 0.5]", false), Stmt::Rollback("c1".into()), w("EMBED STORE 'k2' [2.0, 2.0, 0.5]", false)]),
         // retention: max 2, three checkpoints, every retained one can be rolled back to (no rollback before)
         (plain(2), vec![w("EMBED STORE 'k0' [1.0, 0.0, 0.5]", false), cp("c1"), w("EMBED STORE 'k1' [1.0, 1.0, 0.5]", false), cp("c2"), w("EMBED STORE 'k2' [1.0, 2.0, 0.5]", false), cp("c3"), Stmt::List, Stmt::Rollback("c1".into()), Stmt::Rollback("c3".into())]),
         // retention over a mix of manual and automatic checkpoints (taken before destructive statements): the newest 2 stay
-        (Opts { max: 2, auto: true, bloom: false }, vec![w("EMBED STORE 'k0' [1.0, 0.0, 0.5]", false), cp("m1"), w("EMBED STORE 'k1' [1.0, 1.0, 0.5]", false), w("EMBED DELETE 'k0'", false), w("EMBED STORE 'k2' [1.0, 2.0, 0.5]", false), w("EMBED DELETE 'k1'", false), Stmt::List, Stmt::Rollback("auto-before-embed-delete".into())]),
-        (Opts { max: 3, auto: true, bloom: true }, vec![w("CREATE TABLE t0 (id INT, name TEXT)", true), w("INSERT INTO t0 (id, name) VALUES (1, 'a')", true), cp("m1"), w("NODE CREATE person { name: 'a' }", false), cp("m2"), w("NODE DELETE 1", false), w("EMBED STORE 'k1' [1.0, 1.0, 0.5]", false), w("EMBED DELETE 'k1'", false), w("DELETE FROM t0 WHERE id = 1", true), Stmt::List]),
+        (Opts { max: 2, auto: true, bloom: false, cache: false, asynch: false }, vec![w("EMBED STORE 'k0' [1.0, 0.0, 0.5]", false), cp("m1"), w("EMBED STORE 'k1' [1.0, 1.0, 0.5]", false), w("EMBED DELETE 'k0'", false), w("EMBED STORE 'k2' [1.0, 2.0, 0.5]", false), w("EMBED DELETE 'k1'", false), Stmt::List, Stmt::Rollback("auto-before-embed-delete".into())]),
+        (Opts { max: 3, auto: true, bloom: true, cache: true, asynch: false }, vec![w("CREATE TABLE t0 (id INT, name TEXT)", true), w("INSERT INTO t0 (id, name) VALUES (1, 'a')", true), cp("m1"), w("NODE CREATE person { name: 'a' }", false), cp("m2"), w("NODE DELETE 1", false), w("EMBED STORE 'k1' [1.0, 1.0, 0.5]", false), w("EMBED DELETE 'k1'", false), w("DELETE FROM t0 WHERE id = 1", true), Stmt::List]),
     ];
+    // a name used twice: both checkpoints exist, count towards the limit, and the older one is reachable by id
+    corpus.push((plain(10), vec![w("EMBED STORE 'k0' [1.0, 0.0, 0.5]", false), cp("nightly"), w("EMBED STORE 'k1' [1.0, 1.0, 0.5]", false), cp("before-migration"), w("EMBED STORE 'k2' [1.0, 2.0, 0.5]", false), cp("nightly"), Stmt::List, w("EMBED STORE 'k0' [7.0, 7.0, 0.5]", false), Stmt::RollbackId(0)]));
+    corpus.push((plain(3), vec![w("EMBED STORE 'k0' [1.0, 0.0, 0.5]", false), cp("a"), w("EMBED STORE 'k1' [1.0, 1.0, 0.5]", false), cp("nightly"), w("EMBED STORE 'k2' [1.0, 2.0, 0.5]", false), cp("b"), w("EMBED STORE 'k0' [2.0, 2.0, 0.5]", false), cp("nightly"), Stmt::List, Stmt::Rollback("nightly".into())]));
+    // query cache on, statements through the async entry point: answers cached between checkpoint and rollback must not survive it
+    corpus.push((Opts { max: 10, auto: false, bloom: false, cache: true, asynch: true }, vec![w("EMBED STORE 'k1' [1.0, 0.0, 0.0]", false), w("EMBED STORE 'k2' [0.0, 1.0, 0.0]", false), w("NODE CREATE person { name: 'a' }", false), w("NODE CREATE person { name: 'b' }", false), w("NODE CREATE person { name: 'c' }", false), w("EDGE CREATE 1 -> 2 : knows", false), cp("A"), w("EDGE CREATE 1 -> 3 : knows", false), w("EMBED STORE 'k0' [0.9, 0.2, 0.0]", false), Stmt::Rollback("A".into()), Stmt::List]));
+    corpus.push((Opts { max: 10, auto: false, bloom: false, cache: true, asynch: false }, vec![w("EMBED STORE 'k1' [1.0, 0.0, 0.0]", false), w("NODE CREATE person { name: 'a' }", false), w("NODE CREATE person { name: 'b' }", false), w("NODE CREATE person { name: 'c' }", false), w("EDGE CREATE 1 -> 2 : knows", false), cp("A"), w("EDGE CREATE 1 -> 3 : knows", false), w("EMBED STORE 'k0' [0.9, 0.2, 0.0]", false), Stmt::Rollback("A".into())]));
     // sixteen checkpoints named "0".."f" (a user numbering checkpoints), one more, then ROLLBACK TO the name that equals the
     // first character of that last checkpoint's id: the NAMED checkpoint must be restored, not the one whose id starts so
     for bloom in [false, true] {
@@ -408,7 +460,7 @@ fn main() {
         st.push(cp("cafe"));
         st.push(w("EMBED STORE 'k1' [98.0, 1.0, 0.5]", false));
         st.push(Stmt::RollbackNamedLikeNewestId);
-        corpus.push((Opts { max: 32, auto: false, bloom }, st));
+        corpus.push((Opts { max: 32, auto: false, bloom, cache: false, asynch: false }, st));
     }
     for (o, st) in &corpus {
         let (t, h, nt) = run_script(*o, st, &mut dist);
@@ -420,6 +472,8 @@ fn main() {
         dist.hit(&format!("script.max.{}", o.max));
         dist.hit(if o.auto { "script.auto_checkpoints" } else { "script.manual_only" });
         dist.hit(if o.bloom { "script.bloom_store" } else { "script.plain_store" });
+        dist.hit(if o.cache { "script.query_cache_on" } else { "script.query_cache_off" });
+        dist.hit(if o.asynch { "script.async_api" } else { "script.sync_api" });
         let (t, h, nt) = run_script(o, &st, &mut dist);
         script.push(&t, &h, nt);
     }
@@ -429,7 +483,7 @@ fn main() {
     for i in 0..nt {
         let max = rng.range(1, 2) as usize;
         let total = max + rng.range(1, 3) as usize;
-        let r = new_router(Opts { max, auto: false, bloom: false }, true);
+        let r = new_router(Opts { max, auto: false, bloom: false, cache: false, asynch: false }, true);
         tensor_checkpoint::verif_clock::set(Some(5000));
         let mut created = vec![];
         for j in 0..total {
